@@ -124,10 +124,10 @@ def frac(x):
     return x.e / x.den if x.den is not None else x.e
 
 
-def concrete_run(text, examples, normalize, index_of, w0, steps=2):
+def concrete_run(text, examples, normalize, index_of, w0, steps=2, propagate=False):
     """plain float run of the real code from the initial weights w0 (replay of a solver model)"""
     try:
-        p = LFIProblem(PrologString(text), examples, normalize=normalize)
+        p = LFIProblem(PrologString(text), examples, normalize=normalize, propagate_evidence=propagate)
         p.prepare()
         for pr, i in index_of.items():
             p._weights[i] = float(w0[pr])
@@ -146,7 +146,8 @@ def concrete_run(text, examples, normalize, index_of, w0, steps=2):
 
 
 def work(item):
-    name, seedstr, normalize, complete = item
+    name, seedstr, normalize, complete = item[:4]
+    propagate = item[4] if len(item) > 4 else False
     rng = random.Random(seedstr)
     prog, text, tun, groups, choice_atoms, ders = lfi_program(rng, complete)
     st = Stats()
@@ -155,9 +156,9 @@ def work(item):
     exs, tabs = make_examples(rng, G, choice_atoms, ders, complete)
     examples = [[(Term(gen.atom_str(a)), v) for a, v in e] for e in exs]
     etext = " | ".join(",".join(("" if v else "\\+") + gen.atom_str(a) for a, v in e) for e in exs)
-    pkey = short_hash([text, etext, normalize])
+    pkey = short_hash([text, etext, normalize, propagate])
     st["samples"].append({"name": name, "program": text, "examples": etext, "normalize": normalize})
-    rep = {"seed": seedstr, "normalize": normalize, "complete": complete, "program": text, "examples": etext}
+    rep = {"seed": seedstr, "normalize": normalize, "complete": complete, "propagate": propagate, "program": text, "examples": etext}
     cfg = "normalize" if normalize else "nonormalize"
 
     def violation(kind, what, extra=None):
@@ -167,11 +168,20 @@ def work(item):
         st.violation("%s:%s" % (cfg, kind), "%s [%s; examples %s]" % (what, text.replace("\n", " "), etext), r)
 
     try:
-        p = LFIProblem(PrologString(text), examples, normalize=normalize)
+        p = LFIProblem(PrologString(text), examples, normalize=normalize, propagate_evidence=propagate)
         p.prepare()
     except Exception as e:
         st.ob("refuted", key="prepare:" + pkey)
-        violation("raised:%s@%s" % (type(e).__name__, call_site(e)), "LFIProblem.prepare raised %s: %s" % (type(e).__name__, e))
+        kind_ = "raised:%s@%s" % (type(e).__name__, call_site(e))
+        # causal attribution: does the failure disappear when LFI does not invent evidence for annotated disjunctions?
+        try:
+            p2 = LFIProblem(PrologString(text), examples, normalize=normalize, propagate_evidence=propagate, infer_AD_values=False)
+            p2.prepare()
+            if groups:
+                kind_ = "infer-ad-values:evidence-invented-although-the-body-is-false"
+        except Exception:
+            pass
+        violation(kind_, "LFIProblem.prepare raised %s: %s" % (type(e).__name__, e))
         return st
     index_of = {}
     for i, nm in enumerate(p.names):
@@ -258,7 +268,7 @@ def work(item):
             r, m = chk(*pc)
             w0 = model_w(m) if m is not None else dict((pr, Fraction(1, 2)) for pr in params)
             try:
-                concrete_run(text, examples, normalize, index_of, w0, steps=1)
+                concrete_run(text, examples, normalize, index_of, w0, steps=1, propagate=propagate)
                 st.ob("inconclusive", key=okey, note="symbolic run raised %s, concrete replay does not" % type(val).__name__)
             except Exception as e2:
                 st.ob("refuted", key=okey)
@@ -272,7 +282,7 @@ def work(item):
             r, m = chk(*(list(pc) + [z3.Or(w < 0, w > 1 + z3.RealVal("1/1000000000"))]))
             if r == "sat":
                 w0 = model_w(m)
-                out = concrete_run(text, examples, normalize, index_of, w0, steps=1)
+                out = concrete_run(text, examples, normalize, index_of, w0, steps=1, propagate=propagate)
                 got = out[0][1][pr]
                 if got < 0 or got > 1 + 1e-9:
                     st.ob("refuted", key=okey + ":range:" + pr)
@@ -288,7 +298,7 @@ def work(item):
             r, m = chk(*(list(pc) + [tot > 1 + z3.RealVal("1/1000000000")]))
             if r == "sat":
                 w0 = model_w(m)
-                out = concrete_run(text, examples, normalize, index_of, w0, steps=1)
+                out = concrete_run(text, examples, normalize, index_of, w0, steps=1, propagate=propagate)
                 got = sum(out[0][1][pr] for pr in g) + float(1 - avail)
                 if got > 1 + 1e-9:
                     st.ob("refuted", key=okey + ":adsum")
@@ -304,7 +314,7 @@ def work(item):
             r, m = chk(*(list(pc) + [z3.Or(w > z3.RealVal(str(f)) + z3.RealVal("1/1000000000"), w < z3.RealVal(str(f)) - z3.RealVal("1/1000000000"))]))
             if r == "sat":
                 w0 = model_w(m)
-                out = concrete_run(text, examples, normalize, index_of, w0, steps=1)
+                out = concrete_run(text, examples, normalize, index_of, w0, steps=1, propagate=propagate)
                 got = out[0][1][pr]
                 if abs(got - float(f)) > 1e-9:
                     st.ob("refuted", key=okey + ":mle:" + pr)
@@ -327,6 +337,24 @@ def work(item):
         # (4) the evidence probability used for the reported log-likelihood is the probability of the example
         res = val["res"]
         polys = list(ex_poly.values())
+        if sum(m_ for m_, _ in res) != len(exs):
+            # every example is read off a world of the program and the parameters are strictly inside the box: none has
+            # probability zero, so none may be dropped
+            st.ob("refuted", key=okey + ":examples")
+            kind_ = "example-dropped"
+            try:
+                p2 = LFIProblem(PrologString(text), examples, normalize=normalize, propagate_evidence=propagate, infer_AD_values=False)
+                p2.prepare()
+                for pr, i in index_of.items():
+                    p2._weights[i] = 0.5 / max(1, len(params))
+                if sum(m_ for m_, _pe, _r in p2._evaluate_examples()) == len(exs) and groups:
+                    kind_ = "infer-ad-values:evidence-invented-although-the-body-is-false"
+            except Exception:
+                pass
+            violation(kind_, "%d of %d consistent examples are dropped as inconsistent (ignored with a warning) in the E-step" % (
+                len(exs) - sum(m_ for m_, _ in res), len(exs)))
+        else:
+            st.ob("proved", key=okey + ":examples")
         if len(res) == len(polys):
             ms = sorted(m_ for m_, _ in res)
             if ms == sorted(c for _, c in polys):
@@ -385,7 +413,7 @@ def work(item):
                 r = "unsat-slices" if all(x == "unsat" for x in rs) else "unknown"
         if r == "sat":
             w0 = model_w(m)
-            out = concrete_run(text, examples, normalize, index_of, w0, steps=2)
+            out = concrete_run(text, examples, normalize, index_of, w0, steps=2, propagate=propagate)
             dropped = out[1][2] < out[0][2]
             if out[1][0] < out[0][0] - 1e-9 or dropped:
                 st.ob("refuted", key=okey + ":monotone")
@@ -442,8 +470,8 @@ def main(tier, seed):
                        "vector, a per-iteration claim for all vectors in the box covers runs of any length that stay in the box",
                        "monotonicity: full multivariate query first (15 s); if the solver answers unknown, one symbolic parameter at a "
                        "time with the others on a seeded grid ('monotone-slices', a weaker bounded claim)",
-                       "both configurations: normalize=True (command-line default, the configuration the test-suite pins) and "
-                       "normalize=False (default of the Python API LFIProblem/run_lfi)",
+                       "three configurations: normalize=True (the configuration the test-suite pins), normalize=False (default of the Python API "
+                       "LFIProblem/run_lfi), and normalize=True with propagate_evidence=True (defaults of the `problog lfi` command line)",
                        "floats are reals; thresholds 1e-6 / 1e-15 of the real code are path decisions; log-space mode (ExampleEvaluatorLog), "
                        "non-ground tunable clauses, leak probabilities and continuous distributions are outside the claim"]
     n = 24 if tier == "quick" else 600
@@ -451,9 +479,11 @@ def main(tier, seed):
     for i in range(n):
         for normalize in (True, False):
             items.append(("lfi/%d/%d/%s" % (seed, i, normalize), "c24/%s/%s" % (seed, i), normalize, i % 2 == 0))
+        # the command-line configuration: normalisation and evidence propagation
+        items.append(("lfi/%d/%d/cli" % (seed, i), "c24/%s/%s" % (seed, i), True, i % 2 == 0, True))
     run.bounds = {"programs": len(items), "box": [LO, HI], "max_tunable": 5, "max_examples": 4}
     slices = 0
-    for st in pmap(work, items, item_timeout=600):
+    for st in pmap(work, items, item_timeout=150 if tier == "quick" else 900):
         slices += st.get("slices", 0)
         run.merge(st)
     run.extra["monotone_slices"] = slices
@@ -462,5 +492,5 @@ def main(tier, seed):
 
 
 def replay(obj):
-    st = work(("replay", obj["seed"], obj["normalize"], obj["complete"]))
+    st = work(("replay", obj["seed"], obj["normalize"], obj["complete"], obj.get("propagate", False)))
     return any(v["replay"].get("kind") == obj.get("kind") for v in st["violations"])
